@@ -64,6 +64,14 @@ class C18(Check):
             'angles<->vectors: (phi, theta) and (RA, Dec) float64 arrays (phi in [-360, 720], exact poles, 1e-13..1 deg '
             'from them), integer-degree arrays, correctly rounded unit vectors, numpy-normalised (v/|v|) unit vectors '
             '3e-9..5e-8 rad from a pole, integer axis vectors; both compositions.  '
+            'mu/nu representation flavours (class munu_flavours, every stripe, 40 directions per system incl. 6 on the nu=0 '
+            'circle and both systems\' poles, both transform directions): the same directions handed over as unit-spherical '
+            'data, spherical with per-point distances (1e-6..1e6, in kpc/pc/AU/lyr/m or dimensionless), with one scalar '
+            'distance, as un-normalised CartesianRepresentation (with and without unit), as explicit '
+            'UnitSphericalRepresentation, as SkyCoord with obstime riding along, as scalar coordinate; SkyCoord and bare '
+            'frames; objects derived by slice / reverse / boolean mask / reshape / T / ravel / copy / integer index from '
+            'sources and from transform results; for each: rotation model, round trip of the direction, neighbour '
+            'separations, nu=0 circle, repeat, source data unmodified, and a returned distance must equal the given one.  '
             'Non-trivial: gcirc batch containing distinct points (reference separation > 0); mu/nu case of a stripe '
             'with non-zero inclination (stripes 10 and 82 are the identity rotation); angle/vector batch with points '
             'off the poles.  Distinct by hash of the materialised float64 input.')
@@ -92,7 +100,13 @@ class C18(Check):
                                'munu_source_unmodified_checks', 'munu_repeat_transforms', 'munu_repeat_bit_identical',
                                'munu_other_stripe_transforms', 'munu_object_roundtrips',
                                'gc_input_unmodified_checks', 'gc_repeat_calls', 'gc_repeat_bit_identical',
-                               'ang_input_unmodified_checks', 'ang_repeat_calls']
+                               'ang_input_unmodified_checks', 'ang_repeat_calls',
+                               'flav_transforms', 'flav_points', 'flav_skycoord_objects', 'flav_frame_objects',
+                               'flav_scalar_objects', 'flav_derived_objects', 'flav_derived_from_result_objects',
+                               'flav_points_with_distance', 'flav_distance_lt_1', 'flav_distance_gt_1e3',
+                               'flav_scalar_distance_objects', 'flav_dimensionless_distance_objects',
+                               'flav_cartesian_unnormalised_points', 'flav_obstime_objects',
+                               'flav_source_unmodified_checks', 'flav_on_circle_points']
                               + ['gc_sep_decade_1e%+d' % d for d in DECADES])
     REQUIRED_REACH = {'astro.gcirc': 0.85, 'coord.stripe_to_eta': 1.0, 'coord.stripe_to_incl': 1.0,
                       'coord.radec_to_munu': 1.0, 'coord.munu_to_radec': 1.0,
@@ -146,6 +160,7 @@ class C18(Check):
             'ang_int': 24 if q else 960,
             'vec_roundtrip': 90 if q else 3200,
             'vec_f64norm': 36 if q else 1600,
+            'munu_flavours': 91 if q else 91 * 8,
         }
 
     # ------------------------------------------------------------------ generators
@@ -163,6 +178,8 @@ class C18(Check):
             return self._gen_gc(cls, g, i)
         if cls == 'munu_stripes':
             return self._gen_munu(g, i)
+        if cls == 'munu_flavours':
+            return self._gen_flav(g, i)
         if cls == 'munu_circle':
             return self._gen_circle(g, i)
         if cls in ('ang_roundtrip', 'ang_int'):
@@ -325,6 +342,30 @@ class C18(Check):
                      + g.choice([-1, 1], n) * 10.0 ** g.uniform(-12, -1, n), t)
         return {'kind': 'circle', 'stripe': stripe, 't': lst(t), 'mu_pole': lst(g.uniform(0, 360, 8))}
 
+    def _gen_flav(self, g, i):
+        stripe = i % 91
+        incl = S.sdss_incl_deg(stripe)
+        n = 40
+        case = {'kind': 'flav', 'stripe': stripe}
+        for key, icrs in (('icrs', True), ('munu', False)):
+            lon, lat = self._frame_points(g, n, incl, icrs)
+            t = g.uniform(0.0, 360.0, 6)                      # the first six lie on the stripe's great circle
+            if icrs:
+                lo, la = S.vec_to_lonlat(S.munu_model(NODE + t, np.zeros(6), incl, NODE))
+                lon[:6] = np.mod((lo / S.D2R).astype(np.float64), 360.0)
+                lat[:6] = (la / S.D2R).astype(np.float64)
+            else:
+                lon[:6] = np.mod(NODE + t, 360.0)
+                lat[:6] = 0.0
+            case[key] = {'lon': lst(lon), 'lat': lst(lat)}
+        d = 10.0 ** g.uniform(-6, 6, n)
+        d[g.integers(0, n, 3)] = 1.0
+        mask = g.random(n) < 0.5
+        mask[:2] = True
+        case.update(dist=lst(d), sdist=float(10.0 ** g.uniform(-3, 3)), unit=str(g.choice(['kpc', 'pc', 'AU', 'lyr', 'm'])),
+                    mask=[bool(t) for t in mask], scalar_index=int(g.integers(0, n)))
+        return case
+
     def _gen_ang(self, cls, g, i):
         lat = bool(i % 2)
         if cls == 'ang_int':
@@ -409,6 +450,8 @@ class C18(Check):
             return self._run_gc(case, out)
         if kind == 'munu':
             return self._run_munu(case, out)
+        if kind == 'flav':
+            return self._run_flav(case, out)
         if kind == 'circle':
             return self._run_circle(case, out)
         if kind == 'ang':
@@ -832,6 +875,187 @@ class C18(Check):
         out.count('munu_frame_pole_points', 2 * mp.size + 2)
         out.nontrivial = incl != 0.0
         out.info.update(stripe=stripe, incl=incl)
+
+    # ------------------------------------------------------------------ mu / nu: representation flavours
+    @staticmethod
+    def _data_snapshot(obj):
+        d = obj.data
+        return [(nm, np.array(getattr(d, nm).value, dtype=np.float64, copy=True)) for nm in d.components]
+
+    def _flavour(self, out, tag, src, kind, stripe, incl, lon, lat, dist=None, dist_unit=None, derived_ok=True):
+        """All direction-only clauses for one coordinate object ``src`` of ``kind`` ('icrs' | 'munu') whose directions
+        are (lon, lat) [long double radians, in src's own system, any shape].  Returns the transform result."""
+        SDSSMuNu, ICRS = self.C.SDSSMuNu, self.ac.ICRS
+        other = 'munu' if kind == 'icrs' else 'icrs'
+        fwd = (lambda o: o.transform_to(SDSSMuNu(stripe=stripe))) if kind == 'icrs' else (lambda o: o.transform_to(ICRS()))
+        bwd = (lambda o: o.transform_to(ICRS())) if kind == 'icrs' else (lambda o: o.transform_to(SDSSMuNu(stripe=stripe)))
+        what = '%s %s' % ('ICRS -> (mu,nu)' if kind == 'icrs' else '(mu,nu) -> ICRS', tag)
+        shape = tuple(np.shape(lon))
+        lon = np.asarray(lon, dtype=LD).reshape(-1)
+        lat = np.asarray(lat, dtype=LD).reshape(-1)
+        n = lon.size
+        nn, q, p = S.munu_triad(incl, NODE)
+        node = S.to_rad(NODE, 'deg')
+        if kind == 'icrs':
+            vin = S.unitvec(lon, lat)                                                   # ICRS components
+            vexp = np.stack([(vin * nn).sum(-1), (vin * q).sum(-1), (vin * p).sum(-1)], -1)   # expected, triad components
+        else:
+            vin = S.unitvec(lon - node, lat)                                            # triad components
+            vexp = vin[:, :1] * nn + vin[:, 1:2] * q + vin[:, 2:3] * p                  # expected, ICRS components
+        cin = np.sqrt((vin[:, 0] ** 2 + vin[:, 1] ** 2).astype(np.float64))
+        cexp = np.sqrt((vexp[:, 0] ** 2 + vexp[:, 1] ** 2).astype(np.float64))
+        tol = tol_pos(cexp)
+        snap = self._data_snapshot(src)
+        out.count('flav_transforms')
+        out.count('flav_points', n)
+        out.count('flav_skycoord_objects' if isinstance(src, self.ac.SkyCoord) else 'flav_frame_objects')
+        if shape == ():
+            out.count('flav_scalar_objects')
+        wit = dict(stripe=stripe, flavour=tag)
+        try:
+            res = fwd(src)
+        except Exception as e:       # any flavour astropy accepts must be transformable; keep the other flavours running
+            out.fail('exception', '%s raised %s: %s' % (what, type(e).__name__, e), **wit)
+            return None
+        if not out.expect(tuple(res.shape) == shape, 'shape', '%s: result shape %r for input shape %r' % (what, res.shape, shape), **wit):
+            return res
+        glon, glat = (np.reshape(t, -1) for t in self._lonlat(res, other))
+        fin = np.isfinite(glon) & np.isfinite(glat)
+        self._all(out, fin, 'never-nan', '%s returned a non-finite coordinate' % what, lon=glon, lat=glat, **wit)
+        vgot = self._v(glon, glat, NODE if other == 'munu' else 0.0)
+        e = S.sep_vec(vexp, vgot).astype(np.float64)
+        self._all(out, ~fin | (e <= tol), 'rotation-model', '%s is not the rotation by stripe_to_incl(%d)=%g about the node RA 95' % (what, stripe, incl),
+                  ratio=e / tol, err_rad=e, tol_rad=tol, lon_got=glon, lat_got=glat,
+                  lon_in=(lon / S.D2R).astype(np.float64), lat_in=(lat / S.D2R).astype(np.float64), **wit)
+        if other == 'munu':
+            on = np.abs(vexp[:, 2].astype(np.float64)) < 1e-14              # points of the stripe's great circle: nu = 0
+            out.count('flav_on_circle_points', int(on.sum()))
+            self._all(out, ~fin | ~on | (np.abs(np.radians(glat)) <= 1e-13), 'great-circle', '%s: a point of the nu=0 circle does not come out at nu = 0' % what,
+                      nu=glat, mu=glon, **wit)
+        if n >= 2:
+            a, b = np.arange(n - 1), np.arange(1, n)
+            d = np.abs(S.sep_vec(vin[a], vin[b]) - S.sep_vec(vgot[a], vgot[b])).astype(np.float64)
+            self._all(out, ~(fin[a] & fin[b]) | (d <= tol[a] + tol[b]), 'isometry', '%s changes the separation of a pair' % what,
+                      ratio=d / (tol[a] + tol[b]), diff_rad=d, **wit)
+        # the caller's object is untouched
+        now = self._data_snapshot(src)
+        ok = len(now) == len(snap) and all(k1 == k2 and bool(self._same_bits(v1, v2).all()) for (k1, v1), (k2, v2) in zip(snap, now))
+        out.expect(ok, 'source-unmodified', '%s: the data of the coordinate object handed to transform_to changed' % what, **wit)
+        out.count('flav_source_unmodified_checks', n)
+        # a distance, if the result carries one, is the one that was given
+        for label, obj in (('result', res),):
+            comps = obj.data.components
+            if dist is not None and 'distance' in comps:
+                dg = np.reshape(obj.data.distance.to_value(dist_unit), -1)
+                de = np.reshape(np.broadcast_to(dist, shape if shape else ()), -1)
+                self._all(out, np.abs(dg - de) <= 1e-12 * de, 'distance-preserved', '%s: the %s carries a different distance' % (what, label),
+                          got=dg, given=de, **wit)
+                out.count('flav_distance_returned', n)
+            elif dist is not None:
+                out.count('flav_distance_dropped_not_asserted', n)
+        # round trip of the direction, on the objects themselves
+        try:
+            back = bwd(res)
+        except Exception as e:
+            out.fail('exception', '%s: transforming the result back raised %s: %s' % (what, type(e).__name__, e), **wit)
+            return res
+        blon, blat = (np.reshape(t, -1) for t in self._lonlat(back, kind))
+        vb = self._v(blon, blat, NODE if kind == 'munu' else 0.0)
+        e = S.sep_vec(vin, vb).astype(np.float64)
+        trt = tol + tol_pos(cin)
+        finb = np.isfinite(blon) & np.isfinite(blat)
+        self._all(out, ~fin | (finb & (e <= trt)), 'roundtrip', '%s and back does not return the starting direction' % what,
+                  ratio=e / trt, err_rad=e, tol_rad=trt, lon_back=blon, lat_back=blat,
+                  lon_in=(lon / S.D2R).astype(np.float64), lat_in=(lat / S.D2R).astype(np.float64), **wit)
+        # the same object once more
+        try:
+            again = fwd(src)
+            self._repeat(out, (glon, glat), tuple(np.reshape(t, -1) for t in self._lonlat(again, other)), tol, what, **wit)
+        except Exception as e:
+            out.fail('exception', '%s: second transform of the same object raised %s: %s' % (what, type(e).__name__, e), **wit)
+        return res
+
+    def _run_flav(self, case, out):
+        u, ac, C = self.u, self.ac, self.C
+        stripe = int(case['stripe'])
+        incl = self._stripe_definition(stripe, out)
+        unit = u.Unit(case['unit'])
+        dist = f64(case['dist'])
+        sdist = float(case['sdist'])
+        mask = np.asarray(case['mask'], dtype=bool)
+        j = int(case['scalar_index'])
+        out.count('flav_distance_lt_1', int((dist < 1).sum()))
+        out.count('flav_distance_gt_1e3', int((dist > 1e3).sum()))
+        ops = [('slice', lambda o: o[3:17]), ('reverse', lambda o: o[::-1]), ('mask', lambda o: o[mask]),
+               ('reshape', lambda o: o.reshape(2, -1)), ('T', lambda o: o.reshape(2, -1).T), ('ravel', lambda o: o.reshape(2, -1).ravel()),
+               ('copy', lambda o: o.copy()), ('index', lambda o: o[j])]
+        for kind in ('icrs', 'munu'):
+            lon, lat = f64(case[kind]['lon']), f64(case[kind]['lat'])
+            n = lon.size
+            L, B = S.to_rad(lon, 'deg'), S.to_rad(lat, 'deg')
+            names = ('ra', 'dec') if kind == 'icrs' else ('mu', 'nu')
+            fkw = {} if kind == 'icrs' else {'stripe': stripe}
+            Frame = ac.ICRS if kind == 'icrs' else C.SDSSMuNu
+
+            def frame(*a, **k):
+                k.update(fkw)
+                return Frame(*a, **k)
+
+            def sky(*a, **k):
+                return ac.SkyCoord(*a, frame=frame(), **k)
+            ang = {names[0]: lon * u.deg, names[1]: lat * u.deg}
+            # un-normalised Cartesian data for the same directions (float64 products; the reference uses these numbers)
+            cl = np.cos(np.radians(lat))
+            xyz = np.stack([cl * np.cos(np.radians(lon)), cl * np.sin(np.radians(lon)), np.sin(np.radians(lat))]) * dist
+            xl = xyz.astype(LD)
+            CL, CB = S.vec_to_lonlat(np.moveaxis(xl, 0, -1))
+            flavours = [
+                ('unit-spherical SkyCoord', sky(**ang), L, B, None, None),
+                ('unit-spherical frame', frame(**ang), L, B, None, None),
+                ('explicit UnitSphericalRepresentation', sky(ac.UnitSphericalRepresentation(lon * u.deg, lat * u.deg)), L, B, None, None),
+                ('spherical, distances in %s, SkyCoord' % unit, sky(distance=dist * unit, **ang), L, B, dist, unit),
+                ('spherical, distances in %s, frame' % unit, frame(distance=dist * unit, **ang), L, B, dist, unit),
+                ('spherical, one scalar distance, SkyCoord', sky(distance=sdist * unit, **ang), L, B, np.float64(sdist), unit),
+                ('spherical, dimensionless distances, frame', frame(distance=dist * u.dimensionless_unscaled, **ang), L, B, dist, u.dimensionless_unscaled),
+                ('CartesianRepresentation in %s, not normalised, frame' % unit, frame(ac.CartesianRepresentation(xyz * unit)), CL, CB, None, None),
+                ('CartesianRepresentation, dimensionless, not normalised, SkyCoord', sky(ac.CartesianRepresentation(xyz * u.dimensionless_unscaled)), CL, CB, None, None),
+                ('SkyCoord with obstime', sky(obstime='J2010.5', **ang), L, B, None, None),
+                ('scalar SkyCoord with distance', sky(distance=sdist * unit, **{names[0]: lon[j] * u.deg, names[1]: lat[j] * u.deg}), L[j], B[j], np.float64(sdist), unit),
+                ('scalar frame', frame(**{names[0]: lon[j] * u.deg, names[1]: lat[j] * u.deg}), L[j], B[j], None, None),
+            ]
+            out.count('flav_points_with_distance', 3 * n + 1)
+            out.count('flav_scalar_distance_objects', 2)
+            out.count('flav_dimensionless_distance_objects', 1)
+            out.count('flav_cartesian_unnormalised_points', 2 * n)
+            out.count('flav_obstime_objects')
+            results = {}
+            for tag, obj, fl, fb, fd, fu in flavours:
+                res = self._flavour(out, tag, obj, kind, stripe, incl, fl, fb, fd, fu)
+                results[tag] = res
+                if tag == 'SkyCoord with obstime' and res is not None:
+                    out.count('flav_obstime_kept' if str(getattr(res, 'obstime', None)) == str(obj.obstime) else 'flav_obstime_lost_not_asserted')
+            # objects derived from a source object without going through the constructor
+            for base in ('unit-spherical SkyCoord', 'unit-spherical frame', 'spherical, distances in %s, frame' % unit):
+                obj = [f for f in flavours if f[0] == base][0]
+                for opname, op in ops:
+                    fd = None if obj[4] is None else (op(obj[4]) if np.ndim(obj[4]) else obj[4])
+                    self._flavour(out, '%s, derived by %s' % (base, opname), op(obj[1]), kind, stripe, incl, op(obj[2]), op(obj[3]), fd, obj[5])
+                    out.count('flav_derived_objects')
+            # ... and from the result of a transform (these are objects built by the code under test)
+            other = 'munu' if kind == 'icrs' else 'icrs'
+            for base in ('unit-spherical SkyCoord', 'unit-spherical frame'):
+                res = results.get(base)
+                if res is None or tuple(res.shape) != (n,):
+                    continue
+                rl, rb = self._lonlat(res, other)
+                if not (np.isfinite(rl) & np.isfinite(rb)).all():
+                    continue
+                RL, RB = S.to_rad(rl, 'deg'), S.to_rad(rb, 'deg')
+                for opname, op in ops:
+                    self._flavour(out, 'result of %s, derived by %s' % (base, opname), op(res), other, stripe, incl, op(RL), op(RB))
+                    out.count('flav_derived_from_result_objects')
+        out.nontrivial = incl != 0.0
+        out.info.update(stripe=stripe, incl=incl, unit=case['unit'])
 
     # ------------------------------------------------------------------ angles <-> vectors
     @staticmethod
